@@ -69,10 +69,10 @@ case "${1:-}" in
     case "$prop" in
       C14) VERIF_REPLAY="$(realpath "$2")" overlay_test c14 client TestVerifC14;;
       C02|C07|C08|C13) build_b
-         VERIF_EXEC_ONE="$(jq -r .violation.part "$2")|$(jq -c .violation.choices "$2")" exec bin/verifb.test -test.run "^Test$prop\$" -test.timeout 0;;
+         GOMAXPROCS=1 VERIF_EXEC_ONE="$(jq -r .violation.part "$2")|$(jq -c .violation.choices "$2")" exec bin/verifb.test -test.run "^Test$prop\$" -test.timeout 0;;
       C20) python3 gen_gated.py || exit 3
          (cd h && go1.26.8 test -c -vet=off -overlay ../bin/ov_gate.json -o ../bin/verifb_gated.test ./tb) || exit 3
-         VERIF_EXEC_ONE="$(jq -r .violation.part "$2")|$(jq -c .violation.choices "$2")" exec bin/verifb_gated.test -test.run '^TestC20$' -test.timeout 0;;
+         GOMAXPROCS=1 VERIF_EXEC_ONE="$(jq -r .violation.part "$2")|$(jq -c .violation.choices "$2")" exec bin/verifb_gated.test -test.run '^TestC20$' -test.timeout 0;;
       C04) build_s; (cd h && go build -o ../bin/c04writer ./cmd/c04writer) || exit 3; exec bin/verifs replay "$2";;
       *) build_s; exec bin/verifs replay "$2";;
     esac;;
